@@ -18,7 +18,7 @@ RULE = ("Hypothesis generates lattice models (N<=5 quick, <=6 thorough), beta in
 ASSUMPTIONS = ["numpy reference", "spectra with levels 1e-10..1e-6 apart are discarded (absolute 1e-8 zero-pole threshold)",
                "<A>,<B> for the internal-average overloads are the reference traces (1e-9)"]
 CONFIG = {
-    "quick": {"flavours": ["real", "complex"], "shards": 8, "examples": 150, "min_nontrivial": 100, "budget_s": 100},
+    "quick": {"flavours": ["real", "complex"], "shards": 8, "examples": 800, "min_nontrivial": 100, "budget_s": 120},
     "thorough": {"flavours": ["real", "complex"], "shards": 16, "examples": 2500, "min_nontrivial": 2000, "budget_s": 3000},
 }
 REQUIRED_CLASSES = {"quick": ["n=0", "n!=0", "sub-1", "sub-2", "sub-3", "sub-4", "offdiag-operator", "zero-pole", "complex", "overflow-branch"],
